@@ -660,3 +660,4 @@ ORACLE_KINDS["iter"] = ORACLE_KINDS["*"] | {"iter-sequence", "cardinality", "nod
                                             "iter-end-stays", "iter-eq-end", "missing-result"}
 ORACLE_KINDS["index"] = ORACLE_KINDS["*"] | {"get-element", "header-cardinality", "iter-sequence", "cardinality"}
 ORACLE_KINDS["io"] = ORACLE_KINDS["*"] | {'domain-from-file', 'numroots', 'leak-H', 'structure', 'leak-G', 'idxcards', 'created-kind', 'file-nodes', 'roundtrip-cross', 'numroots2', 'extra-root', 'domain-from-file-probe', 'roundtrip', 'leak-F', 'new-nodes'}
+ORACLE_PATTERNS["reorder"] = [r"kind=(order|permcheck|bystander\S*|hang|crash)"]
